@@ -617,7 +617,7 @@ func tailStr(s string, n int) string {
 }
 
 var c18Main = newPart("C18", "endpoints",
-	"rapid: sequences of 1..12 requests over all ten endpoints dealt to 1..8 concurrent clients on reused or fresh connections, a third of the POSTs in one of nine HTTP-level variants of the same request (chunked body, Content-Type with a charset or absent, an extra query string, Expect: 100-continue, lower-case header names on a raw socket, Accept-Encoding: gzip, a pipelined pair of identical requests, HTTP/1.0), against the REAL server binary built from the working tree on loopback; each JSON field independently present/absent, digits/algorithm spellings incl. unknown ones (resolved by the library's helpers — today the fallback to 6 / SHA1 — or refused with a failure status), secrets in any base32 spelling incl. surrounding blanks, raw (registered) or structured suites, OCRA inputs admissible or not, validation codes at window distances -(s+2)..+(s+2) and edited, generate->validate chains, timestamp omitted (server clock); oracle: the independent RFC references for exactly the request's parameters under the documented mapping, the library called directly in the harness process (verdicts, URL builder, registry), and the suite-name reader; non-trivial = a request with a non-default field, a chain, a distance != 0 or an edited code",
+	"rapid: sequences of 1..12 requests (in half of them all under the same one or two secrets; one sequence in five is a burst of 3..10 rejected validations under one secret followed by accepted ones) over all ten endpoints dealt to 1..8 concurrent clients on reused or fresh connections, a third of the POSTs in one of nine HTTP-level variants of the same request (chunked body, Content-Type with a charset or absent, an extra query string, Expect: 100-continue, lower-case header names on a raw socket, Accept-Encoding: gzip, a pipelined pair of identical requests, HTTP/1.0), against the REAL server binary built from the working tree on loopback; each JSON field independently present/absent, digits/algorithm spellings incl. unknown ones (resolved by the library's helpers — today the fallback to 6 / SHA1 — or refused with a failure status), secrets in any base32 spelling incl. surrounding blanks, raw (registered) or structured suites, OCRA inputs admissible or not, validation codes at window distances -(s+2)..+(s+2) and edited, generate->validate chains, timestamp omitted (server clock); oracle: the independent RFC references for exactly the request's parameters under the documented mapping, the library called directly in the harness process (verdicts, URL builder, registry), and the suite-name reader; non-trivial = a request with a non-default field, a chain, a distance != 0 or an edited code",
 	checkC18)
 
 func drawRestStep(t *rapid.T) restStep {
@@ -775,8 +775,40 @@ func TestC18_Endpoints(t *testing.T) {
 			n = rapid.IntRange(1, 40).Draw(t, "nThorough")
 		}
 		c := c18Case{Conc: rapid.SampledFrom(concs).Draw(t, "conc")}
+		if rapid.IntRange(0, 4).Draw(t, "burst") == 0 {
+			// a burst: 3..10 rejected validations under ONE secret, then accepted ones (what a throttle, a lock-out or a
+			// replay memo keyed by the secret would disturb); sequential, so the order is the one drawn
+			c.Conc = 1
+			key := rapid.SliceOfN(rapid.Byte(), 1, 40).Draw(t, "burstKey")
+			m := rapid.IntRange(3, 10).Draw(t, "burstLen")
+			for i := 0; i < m+2; i++ {
+				st := drawRestStep(t)
+				for st.Ep != "hotp-val" && st.Ep != "totp-val" {
+					st = drawRestStep(t)
+				}
+				st.Key = key
+				if st.HasSkew && st.Skew > 10 {
+					st.Skew = 2
+				}
+				if i < m {
+					st.Mut = 1 // wrong last digit
+				} else {
+					st.Mut, st.Dist = 0, 0 // the right code of the centre
+				}
+				c.Steps = append(c.Steps, st)
+			}
+			return c
+		}
 		for i := 0; i < n; i++ {
 			c.Steps = append(c.Steps, drawRestStep(t))
+		}
+		if rapid.Bool().Draw(t, "sharedSecrets") {
+			// all requests of the sequence work with the same one or two secrets (state the service might keep per secret:
+			// attempt counters, caches, replay memos)
+			shared := rapid.SliceOfN(rapid.SliceOfN(rapid.Byte(), 1, 40), 1, 2).Draw(t, "shared")
+			for i := range c.Steps {
+				c.Steps[i].Key = shared[i%len(shared)]
+			}
 		}
 		return c
 	})
